@@ -8,6 +8,7 @@ import (
 	"sort"
 	"strconv"
 	"strings"
+	"time"
 	"unicode"
 
 	"github.com/lugu/qiloop/type/conversion"
@@ -338,7 +339,83 @@ func hasMap(t *gtype) bool {
 	return false
 }
 
+// convrace <fields> <base>: two goroutines convert, at the same moment, values of a pair of struct types that nobody
+// has converted before in this process (a wide pair: the first conversion takes a while); the first converts once, the
+// second again and again until the first has finished. Every result is the source, field by field.
+func execConvRace(a []string) string {
+	n, _ := strconv.Atoi(a[0])
+	base, _ := strconv.Atoi(a[1])
+	var sf, tf []reflect.StructField
+	for i := 0; i < n; i++ {
+		sf = append(sf, reflect.StructField{Name: fmt.Sprintf("F%dX%d", i, base), Type: reflect.TypeOf(int32(0))})
+	}
+	for i := n - 1; i >= 0; i-- {
+		tf = append(tf, reflect.StructField{Name: fmt.Sprintf("F%dX%d", i, base), Type: reflect.TypeOf(int64(0))})
+	}
+	st, tt := reflect.StructOf(sf), reflect.StructOf(tf)
+	src := reflect.New(st).Elem()
+	for i := 0; i < n; i++ {
+		src.Field(i).SetInt(int64(base + i + 1))
+	}
+	bad := func(dst reflect.Value) int {
+		k := 0
+		for i := 0; i < n; i++ {
+			if dst.Field(n-1-i).Int() != int64(base+i+1) {
+				k++
+			}
+		}
+		return k
+	}
+	start, done := make(chan struct{}), make(chan struct{})
+	res := make(chan string, 2)
+	go func() {
+		<-start
+		dst := reflect.New(tt)
+		err := conversion.ConvertFrom(dst.Interface(), src.Interface())
+		close(done)
+		if err != nil {
+			res <- "err"
+		} else if k := bad(dst.Elem()); k > 0 {
+			res <- fmt.Sprintf("fail:first %d fields differ", k)
+		} else {
+			res <- "ok"
+		}
+	}()
+	go func() {
+		<-start
+		out := "ok"
+		for i := 0; i < 400; i++ {
+			dst := reflect.New(tt)
+			if err := conversion.ConvertFrom(dst.Interface(), src.Interface()); err != nil {
+				out = "err"
+			} else if k := bad(dst.Elem()); k > 0 && out == "ok" {
+				out = fmt.Sprintf("fail:second %d fields differ in round %d", k, i)
+			}
+			select {
+			case <-done:
+				res <- out
+				return
+			default:
+			}
+		}
+		res <- out
+	}()
+	close(start)
+	for i := 0; i < 2; i++ {
+		select {
+		case r := <-res:
+			if r != "ok" {
+				return r
+			}
+		case <-time.After(60 * time.Second):
+			return "hang"
+		}
+	}
+	return "ok"
+}
+
 func init() {
+	executors["convrace"] = execConvRace
 	executors["convre"] = execConvReuse
 	executors["convalias"] = execConvAlias
 	executors["convdec"] = func(a []string) string {
@@ -678,6 +755,14 @@ func runC20(r *Rand, tier string, o *Out) {
 	n := 3000
 	if tier == "thorough" {
 		n = 40000
+	}
+	// the first conversions of a pair of struct types, from two goroutines at once
+	for k, w := range []int{1500, 2500, 400} {
+		op := fmt.Sprintf("convrace %d %d", w, 1000*(k+1)+r.Intn(900))
+		if res := o.Do("P", op, true); res != "ok" {
+			o.Fail("compatible conversion does not round-trip: two goroutines convert a pair of struct types for the first time", op+" => "+res)
+		}
+		o.Count("first-conversion-of-a-pair-from-two-goroutines")
 	}
 	for i := 0; i < n; i++ {
 		depth := 1 + r.Intn(4)
